@@ -5,7 +5,7 @@
 From Coq Require Import String List Morphisms.
 Require Import SC3.proofs.NumTac SC3.gen.Gen_builtins SC3.proofs.C12_num SC3.model.TaskQ SC3.model.Event.
 Require Import SC3.proofs.C09_order SC3.proofs.C14_keys SC3.proofs.C14_play SC3.proofs.C14_stream SC3.proofs.C14_pdur.
-Require Import SC3.proofs.C14_ppar SC3.proofs.C14_merge SC3.proofs.C14_mergethm SC3.proofs.C14_parfinal.
+Require Import SC3.proofs.C14_ppar SC3.proofs.C14_merge SC3.proofs.C14_mergethm SC3.proofs.C14_parfinal SC3.proofs.C14_ctl.
 From Coq Require Import Sorting.
 Import ListNotations.
 Open Scope Q_scope.
@@ -202,6 +202,24 @@ Theorem player_ppar_log : forall c K lib dep inev cs ls fuel mc now,
   Forall2 (logged now) (evs (player c K lib fuel (S dep) (SPar false spec_init (F 0) cs) inev mc now)) outs.
 Proof. exact player_ppar_log. Qed.
 
+(* ---- a player controlled from another routine (player_c: stop at t, or pause at t1 and resume at t2) ---------------------
+   without a controller it is the player loop; a stopped player has played a PREFIX of what it would have played, all of
+   it strictly before the stop time; every event that was played keeps all its bundles (no /s_new of a gated instrument
+   without its gate-off, no gate-off without its /s_new), whatever happens afterwards *)
+Theorem player_without_controller : forall c K lib fuel depth s proto mc now,
+  player_c c K lib fuel depth CNone s proto mc now = player c K lib fuel depth s proto mc now.
+Proof. exact player_c_none_l. Qed.
+
+Theorem player_stop_prefix : forall c K lib fuel depth t s proto mc now,
+  (exists rest, evs (player c K lib fuel depth s proto mc now)
+                = evs (player_c c K lib fuel depth (CStop t) s proto mc now) ++ rest) /\
+  Forall (fun te => fst te < t) (evs (player_c c K lib fuel depth (CStop t) s proto mc now)).
+Proof. exact player_stop_prefix_l. Qed.
+
+Theorem played_events_keep_their_bundles : forall K lib lat k t e log, is_rest e = false ->
+  sends_from K lib lat k (LEv t e :: log) = play_event K lib lat t k e ++ sends_from K lib lat (S k) log.
+Proof. exact sends_complete_l. Qed.
+
 (* ---- the defects of the code as released (each is replayed on the library by harness/props/C14.py) ------------ *)
 (* Pbind(dur = [Rest(1), 1]): nothing is ever played (the player yields a Rest object and is not re-scheduled) *)
 Theorem rest_stops_player_refuted_unpatched :
@@ -225,6 +243,12 @@ Theorem explicit_scale_key_refuted_unpatched :
   ev_call K0 [("degree"%string, VNum (I 2)); ("scale"%string, scale_key patched (scale_new patched minor_degrees (et_steps 12) 1))]
           "note" = VNum (F (3 # 1)).
 Proof. exact scale_key_refuted_unpatched_l. Qed.
+(* Pchain(Pdelta(1/2, Pbind(dur = 1 ...)), Pbind(pan = 1, 2, 3, 4)): after its rest Pdelta embeds its pattern with the
+   FIRST input event again: pan 1 is used twice and pan 2 is lost *)
+Theorem pdelta_stale_input_refuted_unpatched :
+  pans (sends unpatched K0 the_lib 0 10 6 pdelta_witness legato_half 0) = [1; 3; 4]%Z /\
+  pans (sends patched K0 the_lib 0 10 6 pdelta_witness legato_half 0) = [2; 3; 4]%Z.
+Proof. exact pdelta_stale_input_refuted_unpatched_l. Qed.
 (* Scale(degrees, Tuning(steps, 4.0)) forgets the octave ratio: 3 steps per octave instead of 6 *)
 Theorem scale_tuning_refuted_unpatched :
   Qred (sc_spo (scale_new unpatched [0; 1; 2]%Z [0; 4; 8] 2)) = 3 /\ Qred (sc_spo (scale_new patched [0; 1; 2]%Z [0; 4; 8] 2)) = 6.
